@@ -147,7 +147,11 @@ func (sm *seams) match(op string, seq int, url string, transientCount map[string
 				continue
 			}
 		case strings.HasPrefix(f.At, "url:"):
-			if !strings.HasSuffix(url, f.At[4:]) {
+			bare := url
+			if i := strings.IndexAny(bare, "#?"); i >= 0 {
+				bare = bare[:i] // a fault on a resource applies whatever fragment is requested
+			}
+			if !strings.HasSuffix(bare, f.At[4:]) {
 				continue
 			}
 		default:
